@@ -458,6 +458,18 @@ def run_group(group):
                         errs.append([label, "NotAString", repr(type(r))])
                 except Exception as e:
                     errs.append([label, type(e).__name__, str(e)[:120]])
+            # a display threshold below the model tolerance is documented to be replaced by the tolerance
+            try:
+                with warnings.catch_warnings():
+                    warnings.simplefilter("ignore")
+                    tol = float(model.tolerance)
+                    for tiny in (0.0, tol / 1000.0):
+                        if s.to_string(threshold=tiny) != s.to_string(threshold=tol):
+                            errs.append(["to_string(threshold=%r)" % tiny, "DiffersFromTolerance",
+                                         "rendering with a threshold below the tolerance differs from the one at the tolerance"])
+                            break
+            except Exception as e:
+                errs.append(["to_string(threshold below tolerance)", type(e).__name__, str(e)[:120]])
             ob["render_errors"] = errs
             out.append(ob)
     finally:
